@@ -176,14 +176,13 @@ static jwt_value_error_t jwt_set_json(json_t *which, jwt_value_t *jval)
 			jval->error = JWT_VALUE_ERR_INVALID; // LCOV_EXCL_LINE
 	} else {
 		/* Add object at name */
-		if (!jwt_obj_check(which, jval)) {
-			if (json_object_set_new(which, jval->name, json_val))
-				jval->error = JWT_VALUE_ERR_INVALID; // LCOV_EXCL_LINE
-		}
-
-		/* If things failed, it means we're responsible for this ref */
-		if (jval->error != JWT_VALUE_ERR_NONE)
+		if (jwt_obj_check(which, jval)) {
+			/* Not stored, so we are still responsible for this ref */
 			json_decrefp(&json_val);
+		} else if (json_object_set_new(which, jval->name, json_val)) {
+			/* json_object_set_new() steals the ref even when it fails */
+			jval->error = JWT_VALUE_ERR_INVALID; // LCOV_EXCL_LINE
+		}
 	}
 
 	return jval->error;
